@@ -126,6 +126,7 @@ func checkDebug(s *ast.AstProcessDebug, info ProcessTypeInfo) ProcessTypeInfo {
 }
 
 func checkLoop(s *ast.AstProcessLoop, info ProcessTypeInfo) ProcessTypeInfo {
+	wasInLoop := info.inLoop
 	info.inLoop = true
 	for _, stmt := range s.Body {
 		info = checkStatement(&stmt, info)
@@ -133,7 +134,7 @@ func checkLoop(s *ast.AstProcessLoop, info ProcessTypeInfo) ProcessTypeInfo {
 			return info
 		}
 	}
-	info.inLoop = false
+	info.inLoop = wasInLoop
 	return info
 }
 
